@@ -195,9 +195,11 @@ EXPORT errno_t _wcsrtombs_s_chk(size_t *restrict retvalp, char *restrict dest,
         return RCNEGATE(ESNULLP);
     }
 
-    if (unlikely(dest == (char *)srcp)) {
-        invoke_safe_str_constraint_handler(
-            "wcsrtombs_s: dest overlapping objects", (void *)dest, ESOVRLP);
+    /* *srcp starts inside dest */
+    if (unlikely(dest && (dest == (char *)srcp ||
+                          ((const char *)*srcp >= dest &&
+                           (const char *)*srcp < dest + dmax)))) {
+        handle_error(dest, dmax, "wcsrtombs_s: overlapping objects", ESOVRLP);
         return RCNEGATE(ESOVRLP);
     }
 
